@@ -4,7 +4,7 @@ set -e
 cd "$(dirname "$0")"
 export CARGO_NET_OFFLINE=true
 (cd driver && cargo build --release --offline)
-python3 -m engine.facts std alloc core
+python3 -m engine.facts std alloc core std-rel
 if [ -d witness ]; then
   python3 -m engine.witness --prewarm || true
 fi
